@@ -178,6 +178,8 @@ class Tamper:
             return out + [("tampered", t)]
         if kind == "relabel":
             t["phase"] = op.get("phase", "0")
+            if op.get("suffix"):
+                t["phase"] = kw["phase"] + op["suffix"]      # e.g. a non-ASCII or whitespace variant of the genuine label
             if t["phase"] == kw["phase"]:
                 t["phase"] = "7"
             return [("tampered", t)] + out
@@ -193,7 +195,8 @@ class Tamper:
             if not own:
                 return out
             m = dict(own[-1] if op.get("which", "last") == "last" else own[0])
-            m["side"] = peer if op.get("as", "peer") == "peer" else fresh
+            how = op.get("as", "peer")
+            m["side"] = peer if how == "peer" else (vs + op.get("suffix", "\u00e9") if how == "own+suffix" else fresh)
             m["id"] = t["id"]
             if op.get("phase"):
                 m["phase"] = op["phase"]
